@@ -260,6 +260,9 @@ def idx(ctx, L, rule="R-IDX"):
                             if hi is None and fn.name == "__send_multi_pg":
                                 hi = 64  # R-MPG-FIT (C11) bounds the assembled length by 64
                                 ctx.assume("multi-PG frame length <= 64 is decided by R-MPG-FIT (C11)")
+                            if "_LUT_FD_DLC" not in lens:
+                                ctx.unknown(rule, "%s: length of the DLC look-up table not determined (construction not recognised)" % inst)
+                                continue
                             if hi is None or hi >= lens.get("_LUT_FD_DLC", 0):
                                 ctx.violated(rule, fn, inst, "index %s can reach %s but the table has %d entries" % (pretty(x[2]), hi, lens.get("_LUT_FD_DLC", 0)), rec.ev.node)
                             else:
@@ -271,6 +274,90 @@ def scan_all_tables(ctx, L):
     for t in ("_rcv_buffer", "_snd_buffer") + (("_multi_pg_snd_buffer",) if L.fd else ()):
         out.extend(scan_runs(ctx, L, t))
     return out
+
+
+def const_list(node, const_eval=None, limit=4096):
+    """value of a constant list expression (displays, + and * on lists, list(range(..)), comprehensions over ranges) or None;
+    a tiny interpreter over a closed fragment of the expression syntax - nothing is imported or executed"""
+    class No(Exception):
+        pass
+
+    def ev(n, env):
+        if isinstance(n, ast.Constant) and isinstance(n.value, (int, bool)):
+            return n.value
+        if isinstance(n, ast.Name) and n.id in env:
+            return env[n.id]
+        if isinstance(n, (ast.List, ast.Tuple)):
+            out = []
+            for e in n.elts:
+                if isinstance(e, ast.Starred):
+                    out.extend(ev(e.value, env))
+                else:
+                    out.append(ev(e, env))
+            return out
+        if isinstance(n, ast.UnaryOp) and isinstance(n.op, ast.USub):
+            return -ev(n.operand, env)
+        if isinstance(n, ast.BinOp):
+            a, b = ev(n.left, env), ev(n.right, env)
+            if isinstance(n.op, ast.Add) and type(a) == type(b):
+                r = a + b
+            elif isinstance(n.op, ast.Mult) and (isinstance(a, int) or isinstance(b, int)):
+                if (isinstance(a, list) and isinstance(b, int) and len(a) * max(b, 0) > limit) or (isinstance(b, list) and isinstance(a, int) and len(b) * max(a, 0) > limit):
+                    raise No()
+                r = a * b
+            elif isinstance(n.op, (ast.Sub, ast.FloorDiv, ast.Mod)) and isinstance(a, int) and isinstance(b, int) and (b != 0 or isinstance(n.op, ast.Sub)):
+                r = a - b if isinstance(n.op, ast.Sub) else a // b if isinstance(n.op, ast.FloorDiv) else a % b
+            else:
+                raise No()
+            if isinstance(r, list) and len(r) > limit:
+                raise No()
+            return r
+        if isinstance(n, ast.Compare) and len(n.ops) == 1:
+            a, b = ev(n.left, env), ev(n.comparators[0], env)
+            op = n.ops[0]
+            if isinstance(a, int) and isinstance(b, int):
+                return {ast.Lt: a < b, ast.LtE: a <= b, ast.Gt: a > b, ast.GtE: a >= b, ast.Eq: a == b, ast.NotEq: a != b}.get(type(op), None) \
+                    if type(op) in (ast.Lt, ast.LtE, ast.Gt, ast.GtE, ast.Eq, ast.NotEq) else (_ for _ in ()).throw(No())
+            raise No()
+        if isinstance(n, ast.IfExp):
+            return ev(n.body, env) if ev(n.test, env) else ev(n.orelse, env)
+        if isinstance(n, ast.Call) and isinstance(n.func, ast.Name) and not n.keywords:
+            args = [ev(a, env) for a in n.args]
+            if n.func.id == "range" and 1 <= len(args) <= 3 and all(isinstance(a, int) for a in args) and (len(args) < 3 or args[2] != 0):
+                r = range(*args)
+                if len(r) > limit:
+                    raise No()
+                return list(r)
+            if n.func.id in ("list", "tuple") and len(args) == 1 and isinstance(args[0], list):
+                return list(args[0])
+            if n.func.id == "len" and len(args) == 1 and isinstance(args[0], list):
+                return len(args[0])
+            if n.func.id in ("min", "max") and args and all(isinstance(a, int) for a in args):
+                return min(args) if n.func.id == "min" else max(args)
+            raise No()
+        if isinstance(n, (ast.ListComp, ast.GeneratorExp)) and len(n.generators) == 1 and isinstance(n.generators[0].target, ast.Name) \
+                and not n.generators[0].is_async:
+            g = n.generators[0]
+            src = ev(g.iter, env)
+            if not isinstance(src, list):
+                raise No()
+            out = []
+            for x in src:
+                e2 = dict(env)
+                e2[g.target.id] = x
+                if all(ev(c, e2) for c in g.ifs):
+                    out.append(ev(n.elt, e2))
+            return out
+        if const_eval is not None:
+            v = const_eval(n)
+            if isinstance(v, (int, list)) and not isinstance(v, bool):
+                return v
+        raise No()
+    try:
+        v = ev(node, {})
+    except (No, RecursionError, TypeError):
+        return None
+    return v if isinstance(v, list) and all(isinstance(x, int) for x in v) else None
 
 
 def lut_table(ctx, L):
@@ -286,7 +373,7 @@ def lut_table(ctx, L):
             v = ctx.prog.const_eval(st.value, init.mod, init.cls)
             if isinstance(v, list):
                 return v
-            return None
+            return const_list(st.value, lambda n: ctx.prog.const_eval(n, init.mod, init.cls))
         if started and isinstance(st, ast.For) and isinstance(st.iter, ast.Call) and isinstance(st.iter.func, ast.Name) \
                 and st.iter.func.id == "range" and len(st.iter.args) == 1 and len(st.body) == 1:
             b = st.body[0]
